@@ -812,7 +812,95 @@ func (bp *boundsProver) nonNeg(v ssa.Value, assume map[ssa.Value]bool) bool {
 func (x *Ctx) newBoundsProver(fn *ssa.Function, depth int) *boundsProver {
 	bp := &boundsProver{x: x, fn: fn, depth: depth}
 	bp.collect()
+	bp.phiInvariants()
 	return bp
+}
+
+// phiInvariants: for the integer variables carried around a loop, the candidate invariants `v >= 0` and
+// `v <= len(s)` (s a slice parameter) are kept when they are inductive: they hold for the value that enters the
+// loop and, assuming them for the current value, for the value the next iteration starts with.
+func (bp *boundsProver) phiInvariants() {
+	var sliceParams []ssa.Value
+	for _, p := range bp.fn.Params {
+		if _, ok := p.Type().Underlying().(*types.Slice); ok {
+			sliceParams = append(sliceParams, p)
+		} else if b, ok := p.Type().Underlying().(*types.Basic); ok && b.Info()&types.IsString != 0 {
+			sliceParams = append(sliceParams, p)
+		}
+	}
+	for round := 0; round < 2; round++ {
+		for _, b := range bp.fn.Blocks {
+			head := false
+			for _, pr := range b.Preds {
+				if b.Dominates(pr) {
+					head = true
+				}
+			}
+			if !head {
+				continue
+			}
+			for _, ins := range b.Instrs {
+				ph, ok := ins.(*ssa.Phi)
+				if !ok {
+					break
+				}
+				pf, ok := bp.intForm(ph)
+				if !ok {
+					continue
+				}
+				type cand struct {
+					mk func(f linarith.Form) linarith.Ineq
+				}
+				cands := []cand{{func(f linarith.Form) linarith.Ineq { return linarith.GE(f, linarith.Const(0)) }}}
+				for _, sp := range sliceParams {
+					if l, ok := bp.lenForm(sp); ok {
+						ll := l
+						cands = append(cands, cand{func(f linarith.Form) linarith.Ineq { return linarith.LE(f, ll) }})
+					}
+				}
+				for _, c := range cands {
+					hyp := c.mk(pf)
+					known := false
+					for _, f := range bp.facts {
+						if f.at == ssa.Instruction(ph) && f.in.String() == hyp.String() {
+							known = true
+						}
+					}
+					if known {
+						continue
+					}
+					all := true
+					for i, e := range ph.Edges {
+						ef, ok := bp.intForm(e)
+						if !ok {
+							all = false
+							break
+						}
+						pred := b.Preds[i]
+						sub := &boundsProver{x: bp.x, fn: bp.fn, depth: bp.depth, vals: bp.vals}
+						sub.facts = append([]linFact(nil), bp.facts...)
+						sub.site = pred.Instrs[len(pred.Instrs)-1]
+						sub.alt = []ssa.Instruction{ph} // what is known at the head itself
+						sub.pathFacts(pred)
+						if iff, ok := pred.Instrs[len(pred.Instrs)-1].(*ssa.If); ok && pred.Succs[0] != pred.Succs[1] {
+							sub.condFacts(iff.Cond, pred.Succs[0] == b)
+						}
+						sub.cur = nil
+						sub.add(hyp)
+						if !sub.prove(c.mk(ef)) {
+							all = false
+							break
+						}
+					}
+					if all {
+						bp.cur = ph
+						bp.add(hyp)
+						bp.cur = nil
+					}
+				}
+			}
+		}
+	}
 }
 
 // proveSite: a local argument for one expression; returns a one-line reason or "".
@@ -985,7 +1073,8 @@ func (x *Ctx) nonNegImpliesLen(c *ssa.Call) (int, ssa.Value) {
 
 // fieldOf: ld is a load of an integer struct field; returns the base pointer value, the struct type and the field index.
 func fieldOf(ld *ssa.UnOp) (ssa.Value, *types.Struct, int, bool) {
-	if ld.Op != token.MUL || !isIntKind(ld.Type()) {
+	_, isSlice := ld.Type().Underlying().(*types.Slice)
+	if ld.Op != token.MUL || !(isIntKind(ld.Type()) || isSlice) {
 		return nil, nil, 0, false
 	}
 	fa, ok := ld.X.(*ssa.FieldAddr)
@@ -1004,6 +1093,30 @@ func fieldOf(ld *ssa.UnOp) (ssa.Value, *types.Struct, int, bool) {
 func (bp *boundsProver) loadFacts(ld *ssa.UnOp) {
 	base, st, fi, ok := fieldOf(ld)
 	if !ok {
+		return
+	}
+	if _, isSlice := ld.Type().Underlying().(*types.Slice); isSlice {
+		// two loads of a slice field with nothing in between that can write it have the same length and capacity
+		for _, b := range bp.fn.Blocks {
+			for _, ins := range b.Instrs {
+				o, isLd := ins.(*ssa.UnOp)
+				if !isLd || o == ld {
+					continue
+				}
+				ob, ost, ofi, ok := fieldOf(o)
+				if !ok || ob != base || ost != st || ofi != fi {
+					continue
+				}
+				if noClobberBetween(o, ld, st, fi) {
+					l1, _ := bp.lenForm(ld)
+					l2, _ := bp.lenForm(o)
+					c1, _ := bp.capForm(ld)
+					c2, _ := bp.capForm(o)
+					bp.add(linarith.EQ(l1, l2)...)
+					bp.add(linarith.EQ(c1, c2)...)
+				}
+			}
+		}
 		return
 	}
 	lf, _ := bp.intForm(ld)
@@ -1042,9 +1155,16 @@ func noClobberBetween(first, second *ssa.UnOp, st *types.Struct, fi int) bool {
 				return true
 			}
 			if _, ok := t.Addr.(*ssa.FieldAddr); !ok {
-				if _, isAlloc := t.Addr.(*ssa.Alloc); !isAlloc {
-					return true // a store through an unknown pointer
+				if _, isAlloc := t.Addr.(*ssa.Alloc); isAlloc {
+					break
 				}
+				// an element store cannot overwrite a struct field unless the element type contains that struct
+				if ia, isIA := t.Addr.(*ssa.IndexAddr); isIA {
+					if pt, ok := ia.Type().Underlying().(*types.Pointer); ok && !containsStruct(pt.Elem(), st, 0) {
+						break
+					}
+				}
+				return true // a store through an unknown pointer
 			}
 		case *ssa.Call:
 			if _, isB := t.Call.Value.(*ssa.Builtin); !isB {
@@ -1387,4 +1507,26 @@ func (bp *boundsProver) scannerFacts(call *ssa.Call) {
 		return
 	}
 	bp.add(linarith.GE(of, linarith.Const(int64(least))), linarith.LE(of, al))
+}
+
+
+// containsStruct: a value of type t holds a value of struct type st inside itself (not behind a pointer).
+func containsStruct(t types.Type, st *types.Struct, depth int) bool {
+	if depth > 6 {
+		return true
+	}
+	switch u := t.Underlying().(type) {
+	case *types.Struct:
+		if u == st {
+			return true
+		}
+		for i := 0; i < u.NumFields(); i++ {
+			if containsStruct(u.Field(i).Type(), st, depth+1) {
+				return true
+			}
+		}
+	case *types.Array:
+		return containsStruct(u.Elem(), st, depth+1)
+	}
+	return false
 }
